@@ -98,8 +98,38 @@ def shift_const_program(rng):
     return randprog.constify(rng, items, 0.3)
 
 
-def make(case):
+DIST_X = [('bz', 'beq'), ('bz', 'bne'), ('jal', 0), ('jal', 1), ('p', 'j'), ('p', 'jal'), ('p', 'beqz'), ('p', 'bnez'), ('p', 'call'), ('p', 'tail')]
+DIST_D = [250, 252, 254, 256, 258, 260, 262, 2040, 2042, 2044, 2046, 2048, 2050, 2052, 2054]
+
+
+def dist_program(asm, case):
+    """a compress-eligible transfer whose *final compressed* distance to its label sits on an RVC reach boundary, with
+    compressible / shrinking items before and between (the compression decision is taken on label values that still move)"""
+    from . import c03
+    k = case['idx']
+    x = DIST_X[k % len(DIST_X)]
+    D = DIST_D[(k // len(DIST_X)) % len(DIST_D)]
+    d = ['fwd', 'bwd'][(k // (len(DIST_X) * len(DIST_D))) % 2]
+    sc = {'x': list(x), 'dir': d, 'D': D, 'filler': ['comp', 'li', 'mix', 'call'][(k // 7) % 4], 'compress': True, 'pre': 1 + k % 3}
+    gap = 0
+    sign = 1 if d == 'fwd' else -1
+    items = None
+    for _ in range(4):
+        items, X = c03.build_sweep(sc, gap)
+        ex, dist = c03.measure(asm, items, X, True)
+        if dist is None:
+            break
+        delta = D - sign * dist
+        if delta == 0 or gap + delta < 0 or (gap + delta) % 2:
+            break
+        gap += delta
+    return items
+
+
+def make(case, asm=None):
     rng = random.Random('c12-%s-%d-%d' % (case['kind'], case['seed'], case['idx']))
+    if case['kind'] == 'dist':
+        return dist_program(asm, case)
     if case['kind'] == 'edge':
         items = edge_program(rng)
         if rng.random() < 0.3:
@@ -120,11 +150,13 @@ def interesting(items):
                 return True
         if it['k'] == 'gap' and it['n'] >= (1 << 20):
             return True
+        if it['k'] == 'label' and it['name'] == 'T':
+            return True
     return False
 
 
 def run_case(asm, acc, case):
-    items = make(case)
+    items = make(case, asm)
     lines = P.render(items)
     src = '\n'.join(lines) + '\n'
     acc['n'] += 1
@@ -166,7 +198,7 @@ def run_shard(sh, deadline):
 
 
 def plan(tier, seed):
-    n = {'rand': 3000, 'edge': 2500, 'shift': 500} if tier == 'quick' else {'rand': 120000, 'edge': 70000, 'shift': 10000}
+    n = {'rand': 3000, 'edge': 2500, 'shift': 500, 'dist': 1200} if tier == 'quick' else {'rand': 120000, 'edge': 70000, 'shift': 10000, 'dist': 24000}
     cases = [{'kind': k, 'seed': seed, 'idx': i} for k, cnt in n.items() for i in range(cnt)]
     nsh = 64 if tier == 'quick' else 512
     shards = [{'cases': cases[i::nsh]} for i in range(nsh)]
